@@ -38,6 +38,14 @@ def generate(rng, tier):
                 else:
                     r, chunks = 0, pu.cut(rng, part, "rand")
                 yield pu.frame_line(skip, trim, kind, r, chunks), f"trunc-{kind}"
+    # length fields around byte boundaries of the 16-bit length word, cut near the packet ends
+    for dl in (255, 256, 257, 511, 512, 513, 1024, 32768, 65536):
+        data = pu.mk_packet(rng, dl) + pu.mk_packet(rng, 3)
+        for c in sorted(set([len(data), len(data) - 1, len(data) - 10, dl + 7, dl + 6, dl + 8, dl, 7, 6])):
+            part = data[:c]
+            for kind in ("bytes", "file", "socket"):
+                chunks = [part] if kind == "bytes" else pu.cut(rng, part, rng.choice(["one", 4096, "rand"]))
+                yield pu.frame_line(0, pu.REAL_TRIM, kind, -1 if len(chunks) <= 1 else 0, chunks), "length-boundary"
     nrand = 150 if tier == "quick" else 1500
     for _ in range(nrand):
         ln = rng.choice([1, 5, 6, 7, 8, 13, 14, 40, 300])
